@@ -161,8 +161,9 @@ def find_item(src, m, seg, lo, hi):
     Returns (start, end, body_open) -- text src[start:end]; body_open is the index
     of the '{' that opens the body or None."""
     seg = seg.strip()
-    kind, _, rest = seg.partition(' ')
-    rest = rest.strip()
+    mk = re.match(r'(\w+)', seg)
+    kind = mk.group(1)
+    rest = seg[mk.end():].strip()
     if kind in ('fn', 'const', 'enum', 'struct', 'trait', 'mod', 'static', 'type', 'union'):
         pat = r'\b%s\s+%s\b' % (kind, re.escape(rest))
         cands = list(find_code(src, m, pat, lo, hi, want_depth=0))
